@@ -49,7 +49,8 @@ void BfgsMultiDimensions::doInit(const ParameterList& params)
 
   for (size_t i = 0; i < nbParams; i++)
   {
-    auto cp = params[i].getConstraint();
+    // The bounds are those of the optimiser's own parameters: none under the 'ignore' constraint policy.
+    auto cp = getParameters()[i].getConstraint();
     if (!cp)
     {
       Up_[i] = NumConstants::VERY_BIG();
